@@ -11,10 +11,14 @@ TRUSTED = [
     "decided per presented line by AddressSanitizer + UndefinedBehaviorSanitizer builds of the working tree (base-san, w8-san), by guard "
     "words around every caller buffer in the harness, and by comparing the sanitizer build's output with the optimised build's output; the "
     "presented lines are the structured streams of C01, C02, C03, C07, C09, C14, C15 plus the boundary sweeps of this module",
+    "allocation failures are injected by wrapping malloc/calloc/realloc/posix_memalign at link time (harness/ops_af.c) in a build with "
+    "-DALLOC=DYNAMIC and the sanitizers; what is observed per call: every injected failure is reported or harmless, no sanitizer report, "
+    "and the same call works again afterwards",
     "compiler / sanitizer runtime; stack buffers inside static arrays of the harness are protected by guard bytes, not by ASan red zones",
 ]
 ASSUMPTIONS = [
-    "allocation-failure points (ALLOC=DYNAMIC builds) are not yet enumerated (PARTIAL); cp_rsa buffer lengths are exercised by C05/C06",
+    "allocation-failure points are enumerated for the library calls listed in AF_FNS (bn, ep, md, rand, cp_rsa/ecdsa/ecdh/ecss/ecies: the "
+    "anchored files and what they call); the other modules carry known finding C08-AF1; cp_rsa buffer lengths are exercised by C05/C06",
     "'library remains usable afterwards' is checked by every stream continuing with further lines in the same process after each error",
 ]
 RULE = ("every line of the reused streams plus: recoding buffer lengths 0..needed+2 for every recoding kind and width, operand lengths at "
@@ -144,7 +148,47 @@ def streams(ctx, scale=1):
         res.append({"name": "san-boundary-" + cfg, "cfg": SANMAP[cfg], "exe": exe, "ref_exe": ref, "crash_only": True, "tscale": 8, "env": env,
                     "lines": ["cfg"] + boundary_lines(ctx.rng, kv["w"], kv["size"], kv["digs"], n)})
     res.append(select_stream(ctx, scale))
+    res.append(af_stream(ctx, scale))
     return res
+
+
+AF_WRAP = ("-Wl,--wrap=malloc,--wrap=calloc,--wrap=realloc,--wrap=posix_memalign",)
+# the library calls whose every allocation-failure point is enumerated (harness/ops_af.c); the last group exercises modules where the
+# defect class repaired in the anchored files is still present (known finding C08-AF1)
+AF_FNS = ["bn_mul", "bn_mul_karat", "bn_sqr", "bn_add", "bn_lsh", "bn_div_rem", "bn_mod", "bn_mod_barrt", "bn_mod_monty", "bn_mxp_basic",
+          "bn_mxp_slide", "bn_mxp_monty", "bn_mxp_dig", "bn_gcd_basic", "bn_gcd_lehme", "bn_gcd_binar", "bn_gcd_ext_basic",
+          "bn_gcd_ext_lehme", "bn_gcd_ext_binar", "bn_gcd_ext_mid", "bn_lcm", "bn_mod_inv", "bn_srt", "bn_smb_leg", "bn_smb_jac",
+          "bn_is_prime_basic", "bn_is_prime_solov", "bn_is_prime_rabin", "bn_rand_mod", "bn_write_str", "bn_read_str", "bn_write_bin",
+          "bn_read_bin", "bn_rec_win", "bn_rec_slw", "bn_rec_naf", "bn_rec_tnaf", "bn_rec_rtnaf", "bn_rec_reg", "bn_rec_jsf", "bn_rec_glv",
+          "ep_mul_basic", "ep_mul_slide", "ep_mul_monty", "ep_mul_lwnaf", "ep_mul_lwreg", "ep_mul_gen", "ep_mul_dig", "ep_mul_cof",
+          "ep_mul_fix_basic", "ep_mul_fix_combs", "ep_mul_fix_combd", "ep_mul_fix_lwnaf", "ep_mul_sim_basic", "ep_mul_sim_trick",
+          "ep_mul_sim_inter", "ep_mul_sim_joint", "ep_mul_sim_gen", "ep_mul_sim_lot", "ep_mul_sim_lot0", "ep_mul_sim_lot1",
+          "ep_mul_sim_dig", "ep_norm_sim", "ep_map", "ep_rand", "ep_upk", "ep_write_bin", "ep_read_bin", "ep_on_curve",
+          "md_kdf", "md_mgf", "md_hmac", "md_xmd", "md_map", "rand_bytes", "cp_rsa_enc", "cp_rsa_encdec", "cp_rsa_sigver", "cp_ecdsa",
+          "cp_ecdh", "cp_ecss", "cp_ecies"]
+AF_SLOW = ["bn_gen_prime", "cp_rsa_gen"]
+AF_KNOWN = ["ep2_mul_lwnaf", "ep2_mul_sim_trick", "eb_mul_lwnaf"]
+
+
+def af_stream(ctx, scale=1):
+    """'every allocation-failure point when built with dynamic allocation': the library is built with ALLOC=DYNAMIC and the sanitizers,
+    malloc/calloc/realloc/posix_memalign are wrapped at link time, and for each listed call every allocation (a stride of them above
+    600) is made to fail once; see harness/ops_af.c for what one line reports and lean/Driver/C08.lean for the judgement"""
+    exe = ctx.oracle("dyn-san", defs=("ORACLE_NO_BN", "ORACLE_EXTRA1=ops_af"), sources=("oracle.c", "ops_af.c"), tag="_af", extra=AF_WRAP)
+    rng = ctx.rng
+    lines = ["cfg"]
+    reps = (1 if ctx.tier == "quick" else 4) * scale
+    fns = AF_FNS + (AF_SLOW if ctx.tier != "quick" else [])
+    for rep in range(reps):
+        for fn in fns + AF_KNOWN:
+            x = rng.bits(rng.choice([64, 160, 255, 256, 300]))
+            y = rng.bits(rng.choice([8, 64, 128, 256]))
+            z = rng.bits(rng.choice([64, 128, 256])) | 1
+            if fn.startswith("bn_is_prime"):
+                z = rng.choice([(1 << 127) - 1, (1 << 89) - 1, z])
+            lines.append("af %s %x %x %x" % (fn, x, y, z))
+    return {"name": "allocfail-dyn", "cfg": "dyn-san", "exe": exe, "tscale": 40, "lines": lines,
+            "env": {"ASAN_OPTIONS": "detect_leaks=0:abort_on_error=0", "UBSAN_OPTIONS": "print_stacktrace=1"}}
 
 
 def select_stream(ctx, scale=1):
@@ -198,4 +242,7 @@ def nontrivial(r):
 
 
 def matches_finding(f, r):
+    if f.get("id") == "C08-AF1":
+        t = r["line"].split()
+        return len(t) > 1 and t[0] == "af" and t[1] in AF_KNOWN
     return False
